@@ -59,7 +59,7 @@ def net_strategy(dll, max_stacks=4, max_msgs=8, allow_zero_latency=True, min_len
             stacks.append({"max_cmdt": draw(st.one_of(st.sampled_from(WINDOWS), st.integers(1, 255))),
                            "cas": cas, "ecu_listener": draw(st.booleans()),
                            "lat": draw(_lat_list(allow_zero_latency)),
-                           "tx_time": draw(st.sampled_from([0.0, 0.0, 0.0, 0.0001, 0.0005])),
+                           "tx_time": draw(st.sampled_from([0.0, 0.0, 0.0, 0.0001, 0.0005, 0.002])),
                            "slow_rx": draw(st.sampled_from([0.0, 0.0, 0.0, 0.001, 0.02]))})
         unowned = [a for a in naddr[ai:]]
         nm = draw(st.integers(1, max_msgs))
